@@ -67,6 +67,31 @@ def run(chk):
                 s.items.append(('L', line.encode('latin1'))); sh.step(line)
             members.append((cid, s))
         barrier = None
+        logins = [n_ for n_, t_ in svcs if t_ in ('login', 'login-ipr', 'combined')]
+        if logins and rng.random() < 0.25:
+            # focused group 2: one client abandons a challenge (MORE) and leaves; the others retry their password after AGAIN / answer a
+            # challenge of their own: whatever a departed client left pending must not colour a newcomer's queries
+            members = []
+            for j, cid in enumerate(ids):
+                s = Scn(True, bool(rules), svcs, rules, timeout, [], "solo client %d (challenge family)" % cid)
+                sh = Shadow(svcs, timeout, True)
+                seq = ["%d C %s %d 10.1.1.1 6667" % (cid, rng.choice(['1.2.3.4', '2001:db8::1']), 1000 + cid), "%d P :+x acct%d pw" % (cid, cid)]
+                for l in seq: sh.step(l)
+                c_ = sh.live.get(cid)
+                role = 'abandon' if j == 0 else rng.choice(['retry', 'answer', 'plain'])
+                if c_ and c_.out:
+                    svc = rng.choice(sorted(set(c_.out) & set(logins)) or sorted(c_.out))
+                    if role == 'abandon': seq += ["-1 X %s %s :MORE who?" % (svc, c_.tag()), "%d %s" % (cid, rng.choice(['D', 'T']))]
+                    elif role == 'retry': seq += ["-1 X %s %s :AGAIN wrong" % (svc, c_.tag()), "%d P :+x acct%d pw2" % (cid, cid), "%d H" % cid, "-1 X %s %s :OK acct%d" % (svc, c_.tag(), cid)]
+                    elif role == 'answer': seq += ["-1 X %s %s :MORE q?" % (svc, c_.tag()), "%d P :my answer" % cid, "-1 X %s %s :OK acct%d" % (svc, c_.tag(), cid), "%d H" % cid]
+                    else: seq += ["%d H" % cid, "-1 X %s %s :OK" % (svc, c_.tag())]
+                else:
+                    seq += ["%d H" % cid]
+                s.items = L(*seq)
+                members.append((cid, s))
+            chk.hist("group:challenge family (abandoned MORE, retries)")
+            groups.append((svcs, rules, timeout, members, None))
+            continue
         focused = bool(svcs) and rng.random() < 0.3
         if focused:
             # focused group: every client gets all its queries out (hurry-up) before a reload that drops services; the answers come afterwards
@@ -114,13 +139,18 @@ def run(chk):
     # interleavings: merge preserving each client's order; serials in reply tags are rewritten to the instance's serial in the merged run
     inter = []
     for gi, (svcs, rules, timeout, members, barrier) in enumerate(groups):
-        for _ in range(nshuf):
+        for _ in range(nshuf + 2):
             queues = {cid: [it[1].decode('latin1') for it in s.items if it[0] == 'L'] for cid, s in members}
             if barrier:
                 o1 = [cid for cid, s in members for _ in range(barrier[3][cid])]
                 o2 = [cid for cid, s in members for _ in range(len(queues[cid]) - barrier[3][cid])]
                 rng.shuffle(o1); rng.shuffle(o2)
                 order = o1 + [None] + o2
+            elif _ < 2:
+                # sequential schedules: one client completely before the next (records, slots and counters left behind by a
+                # departed client must not leak into a newcomer's conversation)
+                perm = [cid for cid, s in members]; rng.shuffle(perm)
+                order = [cid for cid in perm for _q in queues[cid]]
             else:
                 order = [cid for cid, s in members for _ in queues[cid]]
                 rng.shuffle(order)
